@@ -325,13 +325,18 @@ def consume_case(ctx, case, tmpdir):
     # atom records carry the names of the residues they are meant for (residues skipped by name are not
     # in the file); records beyond the topology are called XTR
     labels = []
+    # residue numbers of the FILE: normally those of the topology; with `resid_base` a running number that
+    # passes 99999 (.gro) / 9999 (.pdb) and wraps to 0 -- the reader is positional, the column must not matter
+    base, running = case.get("resid_base"), 0
     for (_, _, ridx, resname, natoms) in flat_residues(case["types"], case["listing"]):
         if resname in case["skip"]:
             continue
+        running += 1
+        rid = (ridx + 1) if base is None else base + running
         if case["meta"]:
-            labels.append((ridx + 1, resname, "C"))
+            labels.append((rid, resname, "C"))
         else:
-            labels += [(ridx + 1, resname, "A%d" % a) for a in range(natoms)]
+            labels += [(rid, resname, "A%d" % a) for a in range(natoms)]
     labels += [(9999, "XTR", "X")] * max(0, len(pts) - len(labels))
     atoms = [(lab[0], lab[1], lab[2], (fmt(p[0]), fmt(p[1]), fmt(p[2]))) for lab, p in zip(labels, pts)]
     gro_path = write_coords(Path(tmpdir) / "in", case.get("fmt", "gro"), atoms, ("8.0", "8.0", "8.0"))
@@ -388,6 +393,7 @@ def judge_consume(ctx, case, impl, ans):
                 n_given += 1
     key = json.dumps(case, sort_keys=True) if (n_given and n_gen) else None
     ctx.tally(input_format=case.get("fmt", "gro"),
+              file_resids="wrap-around (base %s)" % case["resid_base"] if case.get("resid_base") else "as topology",
               special_resnames=any(r[0] in SPECIAL_NAMES for t in case["types"].values() for r in t["residues"]))
     ctx.case(key, sample=dict(stream="consume", listing=case["listing"], ncoords=case["ncoords"], skip=case["skip"],
                               meta=case["meta"], fmt=case.get("fmt", "gro"), result="reject" if impl == "reject" else "%d given %d to build" % (n_given, n_gen)),
@@ -420,6 +426,11 @@ def gen_consume_cases(ctx):
             ncoords = rng.randint(0, total + 2)
         cases.append(dict(types=types, listing=listing, ncoords=ncoords, skip=skip, meta=meta,
                           fmt=rng.choice(FORMATS), seed=rng.randint(0, 10 ** 6)))
+    # the same kind of input with file residue numbers that wrap around (> 99999 residues in a .gro, > 9999 in
+    # a .pdb) or are all equal: consumption is by position only
+    extra = random.Random(rng.randint(0, 10 ** 9))
+    for case in list(cases[:ctx.budget(24, 300)]):
+        cases.append(dict(case, resid_base=extra.choice([99996, 99998, 9996, 9998]), seed=case["seed"] + 1))
     return cases
 
 
@@ -496,7 +507,11 @@ def gen_machine_system(rng):
                             m["supplied"].append([node, c17.SUPPLIED_BASE + sid[0]])
                             sid[0] += 1
                     m["build"] = []
-    return dict(mols=mols, ignore=ignore, nrewind=rng.choice([None, 0, 1, 2, 5]), maxiter=rng.choice([None, 2, 4]))
+    # BuildSystem.maxiter small: after maxiter + 1 failed attempts _handle_random_walk gives up (returns False)
+    # and _compose_system starts over with the same molecule -- the give-up branch must keep supplied
+    # positions as well (C04_supplied_invariant_giveup)
+    return dict(mols=mols, ignore=ignore, nrewind=rng.choice([None, 0, 1, 2, 5]), maxiter=rng.choice([None, 2, 4]),
+                bs_maxiter=rng.choice([None, 0, 0, 1, 2]))
 
 
 # ------------------------------------------------------------------------------------------------ stream: e2e
